@@ -1461,38 +1461,47 @@ func (t *table) gc(now bigtable.Timestamp, done <-chan struct{}, force bool) {
 
 	// TODO(scottb): could collect batches of rows that need GC with only a read lock, update with write lock.
 
-	i := 0
+	// Collect the keys first and re-read each row under the lock: the lock is given up
+	// between batches, so a row seen by an iterator may have been rewritten since.
+	var keys []keyType
 	t.rows.Ascend(func(r *btpb.Row) bool {
-		changed := false
-		for _, fam := range r.Families {
-			gcRule := rules[fam.Name]
-			if gcRule != nil {
-				for _, col := range fam.Columns {
-					n := len(col.Cells)
-					col.Cells = applyGC(col.Cells, gcRule, now)
-					changed = changed || n != len(col.Cells)
+		keys = append(keys, r.Key)
+		return true
+	})
+
+	i := 0
+	for _, key := range keys {
+		if r := t.rows.Get(key); r != nil {
+			changed := false
+			for _, fam := range r.Families {
+				gcRule := rules[fam.Name]
+				if gcRule != nil {
+					for _, col := range fam.Columns {
+						n := len(col.Cells)
+						col.Cells = applyGC(col.Cells, gcRule, now)
+						changed = changed || n != len(col.Cells)
+					}
 				}
 			}
-		}
-		if changed {
-			r, _ := scrubRow(r, t.cols())
-			t.rows.ReplaceOrInsert(r)
+			if changed {
+				t.updateRow(r) // scrubs, and deletes a row left without cells
+			}
 		}
 		i++
 		if i%100 != 0 {
-			return true
+			continue
 		}
 
 		// Reverse lock; check if we should exit
 		t.mu.Unlock()
-		defer t.mu.Lock()
 		select {
 		case <-done:
-			return false // server has been closed
+			t.mu.Lock()
+			return // server has been closed
 		default:
-			return true
 		}
-	})
+		t.mu.Lock()
+	}
 }
 
 func (t *table) read() {
